@@ -32,9 +32,37 @@ class _Stack:
         return self.enabled
 
 
+class Clock(object):
+    """stands for the `time` module inside the layer's module, should it use one: instants are whatever the harness (the solver) advances
+    them to -- non-decreasing for monotonic(), and for time() as well (a wall clock stepping backwards is left out)"""
+
+    def __init__(self):
+        self.now = 1700000000
+
+    def time(self):
+        return self.now
+
+    monotonic = perf_counter = time
+
+    def sleep(self, s):
+        pass
+
+    def __getattr__(self, n):
+        import time as _t
+        return getattr(_t, n)
+
+
+CLOCK = [None]
+
+
 def _layer(enabled=True):
+    import sys
     from yowsup.layers.noise.layer_noise_segments import YowNoiseSegmentsLayer
     hooks.ROPE_BYTEARRAYS = True
+    mod = sys.modules[YowNoiseSegmentsLayer.__module__]
+    CLOCK[0] = Clock()
+    if hasattr(mod, "time"):
+        mod.time = CLOCK[0]
     layer = YowNoiseSegmentsLayer()
     layer.setStack(_Stack(enabled))
     up, down = [], []
@@ -84,7 +112,23 @@ def _buffer_len(layer):
     return None if b is None else H.length_of(b)
 
 
-def h_stream(ctx, k, m, reuse=False):
+BETWEEN = ("nothing", "connect request while connected", "authenticated", "an event nobody knows")
+
+
+def _between_chunks(ctx, layer, i):
+    """what may happen between two reads without touching the byte stream: time passes (any amount), events travel through the stack"""
+    CLOCK[0].now = CLOCK[0].now + ctx.int("pause%d" % i, 0, 10 ** 7)
+    what = ctx.choice("between%d" % i, list(BETWEEN))
+    if what != "nothing":
+        from yowsup.layers import YowLayerEvent
+        from yowsup.layers.network import YowNetworkLayer
+        from yowsup.layers.auth import YowAuthenticationProtocolLayer
+        name = {"connect request while connected": YowNetworkLayer.EVENT_STATE_CONNECT, "authenticated": YowAuthenticationProtocolLayer.EVENT_AUTHED,
+                "an event nobody knows": "org.example.event"}[what]
+        layer.onEvent(YowLayerEvent(name))
+
+
+def h_stream(ctx, k, m, reuse=False, env=False):
     """reuse: the caller reads into ONE bytearray that it clears and refills for every read (a dispatcher with a receive buffer),
     so whatever the layer keeps must be its own copy"""
     layer, up, down = _layer(True)
@@ -96,6 +140,8 @@ def h_stream(ctx, k, m, reuse=False):
     for i in range(m):
         ln = bounds[i + 1] - bounds[i]
         chunk, rest = rest[:ln], rest[ln:]
+        if env and i:
+            _between_chunks(ctx, layer, i)
         if reuse:
             if H.sym(ctx):
                 buf.items[:] = []
@@ -259,6 +305,9 @@ def cases(tier):
     cs = []
     for k, m in km:
         cs.append(dict(name="stream[k=%d,m=%d]" % (k, m), fn=h_stream, args=(k, m), weight=(k + 1) ** m,
+                       timeout_s=120 if tier == "quick" else 2400, max_paths=200000))
+    for k, m in ((1, 2), (2, 2)) if tier == "quick" else ((1, 2), (2, 2), (2, 3), (3, 3)):
+        cs.append(dict(name="stream[k=%d,m=%d,time passing and events between the reads]" % (k, m), fn=h_stream, args=(k, m, False, True), weight=4 * (k + 1) ** m,
                        timeout_s=120 if tier == "quick" else 2400, max_paths=200000))
     for k, m in ((1, 2), (2, 2), (2, 3)) if tier == "quick" else ((1, 2), (2, 2), (2, 3), (3, 3), (3, 4)):
         cs.append(dict(name="stream[k=%d,m=%d,caller reuses its read buffer]" % (k, m), fn=h_stream, args=(k, m, True), weight=(k + 1) ** m,
